@@ -179,23 +179,30 @@ def feats_of(program: dict) -> frozenset:
 
 
 def report_grouped(chk, prop: str, hits: list[dict]):
-    """hits: [{why, feats: frozenset, size, what, replay}].  One violation per (why, minimal feature set):
-    a hit whose feature set strictly contains the feature set of another hit with the same `why` is
-    explained by that smaller one and not reported separately.  The representative is the smallest input."""
+    """hits: [{why, feats: frozenset, size, what, replay, sampled?}].  One violation per (why, minimal feature set):
+    a hit whose feature set contains the feature set of another hit with the same `why` is explained by that
+    one and not reported separately.  The minimal sets (hence the signatures) are computed from the EXHAUSTIVE
+    part of the run only; hits of seeded random samples (`sampled`) are reported only when no exhaustive hit
+    explains them, so the set of signatures does not depend on the seed.  Representative = smallest input."""
     by_why: dict[str, dict[frozenset, dict]] = {}
+    sampled: dict[str, dict[frozenset, dict]] = {}
     for h in hits:
-        d = by_why.setdefault(h["why"], {})
+        d = (sampled if h.get("sampled") else by_why).setdefault(h["why"], {})
         cur = d.get(h["feats"])
-        if cur is None or h["size"] < cur["size"]:
+        if cur is None or (h["size"], json.dumps(h["replay"], sort_keys=True)) < (cur["size"], json.dumps(cur["replay"], sort_keys=True)):
             d[h["feats"]] = h
     out = []
-    for why in sorted(by_why):
-        fsets = by_why[why]
+    for why in sorted(set(by_why) | set(sampled)):
+        fsets = by_why.get(why, {})
         minimal = [f for f in fsets if not any(g < f for g in fsets)]
+        extra = {f: h for f, h in sampled.get(why, {}).items() if not any(g <= f for g in minimal)}
+        minimal += [f for f in extra if not any(g < f for g in extra)]
+        allsets = dict(extra)
+        allsets.update(fsets)
         for f in sorted(minimal, key=lambda s: sorted(s)):
-            h = fsets[f]
+            h = allsets[f]
             sig = f"{prop}:{why}" + (":" + "+".join(sorted(f)) if f else "")
-            n = sum(1 for g in fsets if f <= g)
+            n = sum(1 for g in allsets if f <= g)
             out.append((sig, h, n))
     for sig, h, n in out:
         chk.violation(sig, f"{h['what']} (seen in {n} feature group(s) of this run)", h["replay"])
